@@ -46,6 +46,10 @@ CHECKS["C19"] = dict(
     text="Proved for ANY history of new/add_signals/remove_signals/set_signals/Drop, raises and dispatches: exactly the configured signals are blocked and watched by the signalfd, pending signals are blocked, nothing stays configured after Drop (C19_mask_exact); a dispatch reports exactly the pending configured signals and leaves none of them pending (reported once, unconfigured never); no pending signal that stays configured ever escapes to its ordinary handler (C19_no_escape). One repair: fix F8 (set_signals window). Correspondence: ~1500 random histories + all short sequences around set_signals run in a real single-threaded process with counting handlers; pthread_sigmask, handler counters and reported signals compared after every call; an oracle judges the real observations directly.",
     note="Kernel signal semantics (coalescing, delivery on unblock, signalfd order) are an assumed environment model validated by the same runs. Sender pid is checked by the harness (own pid), other siginfo fields are not. No axioms.",
     technique="Coq proof (invariant over all histories, pointwise over a finite signal universe) + differential correspondence in a real process", ref="DESIGN.md 4 (C19)")
+CHECKS["C12"] = dict(
+    text="PARTIAL by nature. Proved: the effective wait computed by dispatch_events/Poll::poll is None only without timeout, synthetic event and armed timer; otherwise exactly the smaller of the (possibly zeroed) timeout and the saturating time to the earliest deadline; a zero timeout never blocks; when the wait ends at or after the earliest deadline a timer with that deadline is among the expired ones. Measured every run: a matrix of real dispatch() calls (timeouts 0/40/400 ms/None+wakeup x timers none/earlier/equal/later/expired/Duration::MAX x idle sources incl. orphaned ping and closed channel) must wait at least the model's effective time (minus 1.5 ms), at most 120 ms longer (re-measured up to 3 times), fire the timer iff it is the limit, and run no idle source's callback.",
+    note="The kernel's waiting and the machine's scheduling latency are measured, not modelled; the eff_timeout function is tied to sys.rs only through these measurements (a wrong min/max/saturation shows as a bound violation). No axioms.",
+    technique="Coq proof of the timeout arithmetic + wall-clock measurement matrix against the model's effective timeout", ref="DESIGN.md 4 (C12)")
 
 def main():
     props = [json.loads(l) for l in open(os.path.join(ROOT, "properties.jsonl"))]
